@@ -106,3 +106,59 @@ CONTRACTS = [
              cases=[(k, p, l, b) for k in ('sub', 'func') for p in (0, 2) for l in (0, 2) for b in (0, 1, 3)],
              trusted=['body statements are stand-ins whose generator adds one temporary local each (as FOR / SELECT CASE do)']),
 ]
+
+
+# ------------------------------------------------------------------ LOCATE: optional arguments
+
+from contracts.vm import ChildGen, CT, mkcell, new_cpu, run_instrs, attach_devices, RecordingImpl, stack_after
+from contracts.c_expr import _LvStub, TYPES
+
+
+def body_locate(h, has_row, has_col, has_cursor):
+    """LOCATE [row][, [col][, [cursor]]]: absent arguments are passed as -1; present ones in their own position"""
+    kids, cells = [], []
+
+    def arg(present, name):
+        if not present:
+            return None
+        n = _LvStub(TYPES['INTEGER'][1])
+        kids.append(n)
+        cells.append(mkcell(h, CT.INTEGER, name))
+        return n
+    node = object.__new__(stmt.LocateStmt)
+    node.row, node.col, node.cursor = arg(has_row, 'row'), arg(has_col, 'col'), arg(has_cursor, 'cursor')
+    node.start = node.stop = None
+    node.parent = None
+    code = qvm_codegen.QvmCode()
+    out = h.call(qvm_codegen.gen_locate_stmt, node, code, ChildGen(None, kids))
+    if not out.returned:
+        h.prove('generator.no_exception', False, detail=repr(out))
+        return
+    impl = RecordingImpl()
+    cpu = attach_devices(new_cpu(h, []), impl)
+    bad = run_instrs(h, cpu, code._instrs, cells)
+    if bad is not None:
+        h.prove('machine.no_exception', False, detail=repr(bad))
+        return
+    stack_after(h, cpu, 0)
+    h.prove('one_locate_interaction', len(impl.trace) == 1 and impl.trace[0][0] == 'terminal_locate')
+    if len(impl.trace) != 1:
+        return
+    _, row, col, cursor, start, stop = impl.trace[0]
+    it = iter(cells)
+    want_row = next(it).value if has_row else None
+    want_col = next(it).value if has_col else None
+    want_cur = next(it).value if has_cursor else None
+    # the device converts 1-based row/column to 0-based and keeps -1 for "not given"
+    from pyvc.sym import ite
+    def zb(v):
+        return ite(v >= 1, v - 1, v) if v is not None else -1
+    h.prove('row', same(row, zb(want_row)))
+    h.prove('column', same(col, zb(want_col)))
+    h.prove('cursor', same(cursor, want_cur if want_cur is not None else -1))
+
+
+CONTRACTS += [
+    Contract('codegen.locate', ['C01', 'C06', 'C03'], ['qbee.qvm_codegen:gen_locate_stmt', 'qvm.machine:TerminalDevice._exec_locate'], body_locate,
+             cases=[(r, c, k) for r in (False, True) for c in (False, True) for k in (False, True)]),
+]
